@@ -1574,11 +1574,14 @@ fn oracles(
     let mut appdropped_before_call: BTreeSet<usize> = BTreeSet::new();
     // requests that were certainly in flight when a duplicate of their id was read
     let mut had_dup: BTreeSet<usize> = BTreeSet::new();
+    // the request (seq) whose cancellation was read earlier in the current poll of the channel
+    let mut cancel_freed_in_this_poll: Option<usize> = None;
     for (i, e) in ev.iter().enumerate() {
         match e {
             Ev::PollCall => {
                 // abandonments the channel has been notified of before this poll begins
                 appdropped_before_call = appdropped.clone();
+                cancel_freed_in_this_poll = None;
             }
             Ev::In { seq, kind, id, v, .. } => {
                 if *kind == "req" {
@@ -1641,6 +1644,7 @@ fn oracles(
                     if let Some(q) = yielded.iter().rev().find(|q| life[q].id == *id && !ended_set.contains(q)).cloned() {
                         ended_set.insert(q);
                         last_in_was_noop_cancel = false;
+                        cancel_freed_in_this_poll = Some(q);
                     }
                 }
             }
@@ -1672,6 +1676,10 @@ fn oracles(
                         (Some(l), Some((sq, _c, possible))) if life[&sq].id == *id => {
                             if possible < l {
                                 out.viols.push(Viol::new("C12", "throttled-below-limit", format!("request seq {sq} was refused although at most {possible} < L={l} requests were in flight when it was read")));
+                                if let Some(cq) = cancel_freed_in_this_poll {
+                                    // C04: a cancelled request no longer counts as in flight, with a per-channel limit too
+                                    out.viols.push(Viol::new("C04", "cancelled-request-still-occupies-slot", format!("the cancellation of request seq {cq} was read, then request seq {sq} in the same poll; it was refused by the limiter (L={l}) although only {possible} requests were in flight: the cancelled request still counted")));
+                                }
                             } else if strict_of.get(&sq).map(|p| *p < l).unwrap_or(false) {
                                 out.viols.push(Viol::new("C12", "throttled-after-abandonment", format!("request seq {sq} was refused although only {} < L={l} requests were in flight when it was read, not counting those the application had abandoned before that poll began", strict_of[&sq])));
                             }
